@@ -492,6 +492,11 @@ func splitHostURI(host, uri []byte) ([]byte, []byte, []byte) {
 
 	uri = path[len(bytestr.StrSlashSlash):]
 	n := bytes.IndexByte(uri, '/')
+	if q := bytes.IndexAny(uri, "?#"); q >= 0 && (n < 0 || q < n) {
+		// The authority ends at the first '/', '?' or '#' (RFC 3986 section 3.2):
+		// a '/' inside the query or the fragment does not start the path.
+		return scheme, uri[:q], uri[q:]
+	}
 	if n < 0 {
 		// A hack for bogus urls like foobar.com?a=b without
 		// slash after host.
